@@ -133,3 +133,10 @@ CLAIMS["C23"] = {"engine": "wallet-runes", "level": "model_checking",
                  "text": "in the exhaustive model the node may fund with ANY unlocked wallet outputs; the invariant is that no inscribed or runic output other than the command's subject is spent (violated when the lock step is removed). For every real node-funded command run by the driver (send bitcoin, mint, split, send and burn runes) TLC checks on the recorded trace that every inscribed or runic wallet output that is not the subject was in the node's locked set after the command, that the broadcast transaction spends none of them, and that it spends only wallet outputs; all non-cardinal outputs are made larger than any cardinal one so that the mock node's largest-first funding would pick an unlocked one",
                  "note": "trusted: TLC, the harness, mockcore's lockunspent/fundrawtransaction; offer creation is exercised by the C24 driver, not here",
                  "technique": "TLC model checking with a nondeterministic funding node (WalletModel) + TLA+ trace validation of the locked set and inputs of real commands (WalletTrace)"}
+
+ENGINES.append({"name": "offer", "path": "spec/Offer.tla", "serves_properties": ["C24"],
+                "kind_free_text": "TLA+ transcription of the offer acceptance gate (Decide / AfterSign) with the advertised-trade predicate; OfferModel checks every PSBT shape up to 3 inputs with a signing node that may replace signatures; OfferTrace validates the real `ord wallet offer accept` on generated PSBTs"})
+CLAIMS["C24"] = {"engine": "offer", "level": "model_checking",
+                 "text": "TLC explores every abstract PSBT of up to 2 (thorough: 3) inputs over 60 input classes (owner x contents {none, X, Y, X+Y, Y+X} x runes x signature {none, standard, not preserved}), both namings, both balance outcomes and every choice of which signatures the node preserves; invariant: a broadcast implies exactly one wallet input holding exactly the named inscription and no runes, the exact balance change, all other inputs signed and their signatures unchanged. Generated concrete PSBTs (damaged well-formed offers) are presented to the real command; TLC requires on the recorded trace that whatever reached the mempool is the offered transaction and satisfies the same predicate with the output contents read from the real index, that refusals broadcast nothing, and (MODEL-DRIFT only) that the outcome equals the model's decision",
+                 "note": "trusted: TLC, the harness PSBT builder, mockcore as the node (its walletprocesspsbt/finalizepsbt replace every witness by a fixed 64-byte one, which is what makes 'not preserved' signatures observable; its simulaterawtransaction is told the node's network through the guarded hook)",
+                 "technique": "TLC model checking of the acceptance gate (OfferModel) + TLA+ trace validation of the real command on generated PSBTs (OfferTrace)"}
